@@ -31,7 +31,8 @@ struct C04
       case 1: got = static_cast<i64>(s->fm_mixed(M_ADD, t, O_T_FIX, 0, bits)); what = "n + fixed_t(0)"; break;
       case 2: got = static_cast<i64>(s->fm_mixed(M_ADD, t, O_ASSIGN, 0, bits)); what = "x = 0; x += n"; break;
       case 3: got = static_cast<i64>(s->fm_mixed(M_SUB, t, O_T_FIX, 0, bits)); what = "n - fixed_t(0)"; break;
-      case 5: got = static_cast<i64>(s->fm_mixed(M_DIV, t, O_T_FIX, 65536, bits)); what = "n / fixed_t(1)"; break;   // integral dividend: promoted (only fixed*n, n*fixed, fixed/n use the integer itself)
+      case 5: got = static_cast<i64>(s->fm_mixed(M_DIV, t, O_T_FIX, 65536, bits)); what = "n / fixed_t(1)"; break;
+      case 6: got = static_cast<i64>(s->fm_mixed(M_SUB, t, O_ASSIGN, 0, bits)); what = "x = 0; x -= n"; sign = -1; break;   // integral dividend: promoted (only fixed*n, n*fixed, fixed/n use the integer itself)
       default: got = static_cast<i64>(s->fm_mixed(M_SUB, t, O_FIX_T, 0, bits)); what = "fixed_t(0) - n"; sign = -1; break;
       }
     bool ok = in_range(n) ? got == static_cast<i64>(sign * n * 65536) : fx_isnan(got);
@@ -153,7 +154,7 @@ void explore04(Options const& o, std::vector<Shim*> const& shims, std::vector<Sh
         LocalViol lv(rec);
         for( size_t i = blk * B; i < std::min(vals.size(), (blk + 1) * B); ++i )
           {
-          for( int form = 0; form < 6; ++form ) c.promo(s, form, t, vals[i], ob | (static_cast<u64>(t) << 52) | (9ull << 48) | (i * 8 + static_cast<u64>(form)), lv);
+          for( int form = 0; form < 7; ++form ) c.promo(s, form, t, vals[i], ob | (static_cast<u64>(t) << 52) | (9ull << 48) | (i * 8 + static_cast<u64>(form)), lv);
           c.round_trip(s, t, vals[i], ob | (static_cast<u64>(t) << 52) | (10ull << 48) | i, lv);
           }
         });
@@ -364,6 +365,9 @@ void explore05(Options const& o, std::vector<Shim*> const& shims, std::vector<Sh
     u64 M = ((1ull << 23) | m) * 2 + 1;          // 25 bits, last bit = the halfway bit
     i128 base = static_cast<i128>(M) << e;
     for( int d = -2; d <= 2; ++d ) for( int sg = 0; sg < 2; ++sg ) { i128 v = (sg ? -base : base) + d; if( v >= FX_LOWEST && v <= FX_MAX ) fxs.push_back(static_cast<i64>(v)); }
+    // the halfway point plus / minus ONE lower bit at every position (the sticky bit of a rounding implementation may sit anywhere below the tie)
+    for( int j = 0; j < e; ++j ) for( int sg = 0; sg < 2; ++sg ) for( int pm = -1; pm <= 1; pm += 2 )
+      { i128 v = (sg ? -base : base) + pm * (static_cast<i128>(1) << j); if( v >= FX_LOWEST && v <= FX_MAX ) fxs.push_back(static_cast<i64>(v)); }
     }
   auto mpd = mant_patterns(52, 3);
   for( int e = 0; e <= 9; ++e ) for( u64 m : mpd )
